@@ -617,6 +617,84 @@ theorem chain_sortByLabels : ∀ (l : List Series), ChainLe (sortByLabels l)
     simp only [sortByLabels, List.foldr_cons] at *
     exact chain_insertL x _ ih
 
+omit wf in
+theorem labelsLe_cons_iff (n1 v1 n2 v2 : String) (a b : List (String × String)) :
+    labelsLe ((n1, v1) :: a) ((n2, v2) :: b) = true ↔
+      n1 < n2 ∨ (n1 = n2 ∧ (v1 < v2 ∨ (v1 = v2 ∧ labelsLe a b = true))) := by
+  simp only [labelsLe]
+  by_cases h1 : n1 < n2
+  · simp [h1]
+  · by_cases h2 : n2 < n1
+    · have hne : n1 ≠ n2 := fun e => by subst e; exact String.lt_irrefl _ h2
+      simp [h1, h2, hne]
+    · have hn : n1 = n2 := String.le_antisymm (String.not_lt.mp h2) (String.not_lt.mp h1)
+      subst hn
+      simp only [h1, if_false, false_or, true_and]
+      by_cases h3 : v1 < v2
+      · simp [h3]
+      · by_cases h4 : v2 < v1
+        · have hne : v1 ≠ v2 := fun e => by subst e; exact String.lt_irrefl _ h4
+          simp [h3, h4, hne]
+        · have hv : v1 = v2 := String.le_antisymm (String.not_lt.mp h4) (String.not_lt.mp h3)
+          subst hv
+          simp [h3]
+
+omit wf in
+theorem labelsLe_trans : ∀ (a b c : List (String × String)),
+    labelsLe a b = true → labelsLe b c = true → labelsLe a c = true
+  | [], _, _, _, _ => by simp [labelsLe]
+  | _ :: _, [], _, h, _ => by simp [labelsLe] at h
+  | _ :: _, _ :: _, [], _, h => by simp [labelsLe] at h
+  | (n1, v1) :: a, (n2, v2) :: b, (n3, v3) :: c, h1, h2 => by
+    rw [labelsLe_cons_iff] at h1 h2 ⊢
+    rcases h1 with h1 | ⟨rfl, h1⟩
+    · rcases h2 with h2 | ⟨rfl, _⟩
+      · exact Or.inl (String.lt_trans h1 h2)
+      · exact Or.inl h1
+    · rcases h2 with h2 | ⟨rfl, h2⟩
+      · exact Or.inl h2
+      · refine Or.inr ⟨rfl, ?_⟩
+        rcases h1 with h1 | ⟨rfl, h1⟩
+        · rcases h2 with h2 | ⟨rfl, _⟩
+          · exact Or.inl (String.lt_trans h1 h2)
+          · exact Or.inl h1
+        · rcases h2 with h2 | ⟨rfl, h2⟩
+          · exact Or.inl h2
+          · exact Or.inr ⟨rfl, labelsLe_trans a b c h1 h2⟩
+
+abbrev SLe (a b : Series) : Prop := labelsLe a.labels b.labels = true
+
+omit wf in
+theorem pairwise_insertL (x : Series) : ∀ {l : List Series}, l.Pairwise SLe → (insertL x l).Pairwise SLe
+  | [], _ => by simp [insertL]
+  | y :: ys, hp => by
+    have hle := (List.pairwise_cons.mp hp).1
+    simp only [insertL]
+    split
+    · rename_i h
+      rw [List.pairwise_cons]
+      refine ⟨?_, hp⟩
+      intro z hz
+      rcases List.mem_cons.mp hz with rfl | hz
+      · exact h
+      · exact labelsLe_trans _ _ _ h (hle z hz)
+    · rename_i h
+      have hyx : SLe y x := labelsLe_total _ _ (by simpa using h)
+      rw [List.pairwise_cons]
+      refine ⟨?_, pairwise_insertL x (List.pairwise_cons.mp hp).2⟩
+      intro z hz
+      rcases mem_insertL.mp hz with rfl | hz
+      · exact hyx
+      · exact hle z hz
+
+omit wf in
+theorem pairwise_sortByLabels : ∀ (l : List Series), (sortByLabels l).Pairwise SLe
+  | [] => by simp [sortByLabels]
+  | x :: t => by
+    have ih := pairwise_sortByLabels t
+    simp only [sortByLabels, List.foldr_cons] at *
+    exact pairwise_insertL x ih
+
 theorem byRef_spec {s : Series} (hs : s ∈ ix.series) : ix.byRef s.ref = some s := by
   unfold Index.byRef
   cases h : ix.series.find? (fun t => t.ref == s.ref) with
@@ -629,7 +707,7 @@ theorem byRef_spec {s : Series} (hs : s ∈ ix.series) : ix.byRef s.ref = some s
     rw [ref_inj wf ht hs hr]
 
 theorem select_spec {ms : List Matcher} (hne : ms ≠ []) (hms : ∀ m ∈ ms, WFm m) (sorted : Bool) :
-    ∃ ss, select ix sorted ms = .ok ss ∧ (sorted = true → ChainLe ss) ∧
+    ∃ ss, select ix sorted ms = .ok ss ∧ (sorted = true → ss.Pairwise SLe) ∧
       (sorted = false → ss = ix.series.filter (sat ms)) ∧
       ∀ s, s ∈ ss ↔ s ∈ ix.series ∧ sat ms s = true := by
   obtain ⟨p, hp, hsorted, hmem⟩ := pfm_mem wf hne hms
@@ -658,7 +736,7 @@ theorem select_spec {ms : List Matcher} (hne : ms ≠ []) (hms : ∀ m ∈ ms, W
   rw [hp]
   cases sorted with
   | true =>
-    refine ⟨sortByLabels (p.filterMap ix.byRef), rfl, fun _ => chain_sortByLabels _, (fun h => by cases h), fun s => ?_⟩
+    refine ⟨sortByLabels (p.filterMap ix.byRef), rfl, fun _ => pairwise_sortByLabels _, (fun h => by cases h), fun s => ?_⟩
     rw [mem_sortByLabels, hexp, List.mem_filter]
   | false =>
     refine ⟨p.filterMap ix.byRef, rfl, (fun h => by cases h), fun _ => hexp, fun s => ?_⟩
